@@ -72,6 +72,11 @@ func (g *Gen) Scenarios(p *ps.Program) []*ps.Scenario {
 		if sc.Execs == 0 {
 			sc.Execs = 1
 		}
+		if sc.Execs > 2 && bigCollection(p) {
+			// thousands of elements times 64 concurrent executions would only measure the
+			// harness's own bookkeeping against the watchdog
+			sc.Execs = 2
+		}
 		if sc.Cancel == "" {
 			sc.Cancel = "none"
 		}
@@ -411,4 +416,19 @@ func min(a, b int) int {
 		return a
 	}
 	return b
+}
+
+// bigCollection reports whether the program has a collection of a thousand elements or more.
+func bigCollection(p *ps.Program) bool {
+	for _, s := range p.Slices {
+		if s.Len >= 1000 {
+			return true
+		}
+	}
+	for _, m := range p.Maps {
+		if m.Len >= 1000 {
+			return true
+		}
+	}
+	return false
 }
